@@ -83,8 +83,8 @@ __CPROVER_ensures(__CPROVER_return_value == AWS_OP_SUCCESS && !g_mt_locked)
 ;
 int aws_mutex_init(struct aws_mutex *mutex)
 __CPROVER_requires(__CPROVER_w_ok(mutex, sizeof(*mutex)))
-__CPROVER_assigns(*mutex)
-__CPROVER_ensures(__CPROVER_return_value == AWS_OP_SUCCESS)
+__CPROVER_assigns(*mutex, g_mt_mutex)
+__CPROVER_ensures(__CPROVER_return_value == AWS_OP_SUCCESS && g_mt_mutex == mutex)
 ;
 void aws_mutex_clean_up(struct aws_mutex *mutex)
 __CPROVER_requires(mutex == g_mt_mutex)
